@@ -52,6 +52,8 @@ pub fn encode(enc: usize, reader: usize, data: &[u8], seed: u64, sink: &SharedSi
         let run = |input: &mut dyn std::io::BufRead, w: &mut SharedSink| -> std::io::Result<()> {
             let mut input = input;
             match enc {
+                // WriteToHeader(None) is the documented default: alternate with the plain wrapper
+                0 if seed % 2 == 0 => lzma_rs::lzma_compress(&mut input, w),
                 0 => lzma_rs::lzma_compress_with_options(
                     &mut input,
                     w,
